@@ -5,6 +5,7 @@ import (
 	"database/sql"
 	"database/sql/driver"
 	"errors"
+	"fmt"
 	"os"
 	"sync"
 	"sync/atomic"
@@ -41,6 +42,12 @@ type FaultPlan struct {
 	// schema script is one driver-level statement, and this is how a crash in the
 	// middle of it is placed.
 	DDL bool
+	// Stmt likewise makes every statement inside one driver-level call a step of its own (kind
+	// "stmt": the authorizer sees a DELETE / INSERT / UPDATE / SELECT being compiled, which in a
+	// multi-statement string happens after the previous statement has run): a second caller can
+	// be placed between the statements of a script executed with one Exec.
+	Stmt     bool
+	lastStmt string
 }
 
 var Plan = &FaultPlan{}
@@ -56,6 +63,7 @@ func (p *FaultPlan) Arm(failAt, exitAt int64, exitPost bool) {
 	p.exitPost = exitPost
 	p.Fired = false
 	p.Trace = nil
+	p.lastStmt = ""
 }
 
 // Disarm stops counting and returns the number of steps seen.
@@ -183,14 +191,26 @@ func (t *faultTx) Rollback() error { return t.tx.Rollback() }
 
 func init() {
 	inner := &sqlite3.SQLiteDriver{ConnectHook: func(c *sqlite3.SQLiteConn) error {
-		if !Plan.DDL {
+		if !Plan.DDL && !Plan.Stmt {
 			return nil
 		}
 		c.RegisterAuthorizer(func(op int, a1, a2, a3 string) int {
 			switch op {
 			case sqlite3.SQLITE_CREATE_TABLE, sqlite3.SQLITE_CREATE_INDEX, sqlite3.SQLITE_CREATE_TRIGGER, sqlite3.SQLITE_CREATE_VIEW:
-				if _, post := Plan.step("ddl"); post != nil {
-					post()
+				if Plan.DDL {
+					if _, post := Plan.step("ddl"); post != nil {
+						post()
+					}
+				}
+			case sqlite3.SQLITE_DELETE, sqlite3.SQLITE_INSERT:
+				// one step per (action, table): the columns and sub-selects of one statement
+				// produce further callbacks that are not statement boundaries
+				if Plan.Stmt {
+					key := fmt.Sprint(op, a1)
+					if key != Plan.lastStmt {
+						Plan.lastStmt = key
+						_, _ = Plan.step("stmt")
+					}
 				}
 			}
 			return sqlite3.SQLITE_OK
